@@ -240,7 +240,7 @@ func hostileInit() {
 			v   uint64
 			has bool
 		}{{0, false}, {0, true}, {3, true}, {math.MaxInt64, true}} {
-			for _, tg := range []string{"raw", "missing", "plain-pb", "file2", "file-noblocksizes", "file-lying", "dir"} {
+			for _, tg := range []string{"raw", "missing", "plain-pb", "file2", "file-noblocksizes", "file-lying", "dir", "inner-garbage-2pb", "inner-emptydata-2pb"} {
 				fileLinkMenu = append(fileLinkMenu, linkDef{Label: fmt.Sprintf("tsize=%d(%v)->%s", ts.v, ts.has, tg), Tsize: ts.v, HasTsize: ts.has, Target: tg})
 			}
 		}
@@ -308,6 +308,22 @@ func hostileInit() {
 				}), HasData: true,
 					Links: []model.PBLink{{Cid: rawLeaf(s), Tsize: math.MaxInt64, HasTsize: true}}}
 				return put(s, model.EncodePB(n), false)
+			},
+			// interior nodes whose Data does not decode, above two dag-pb leaves:
+			// reading through them asks for their metadata more than once
+			"inner-garbage-2pb": func(s *store.Store) cid.Cid {
+				leaf := func(b string) model.PBLink {
+					c := put(s, model.EncodePB(&model.PBNode{Data: fsData(2, func(d *pb.Data) { d.Data = []byte(b); d.Filesize = u64p(uint64(len(b))) }), HasData: true}), false)
+					return model.PBLink{Cid: c, Tsize: 9, HasTsize: true}
+				}
+				return put(s, model.EncodePB(&model.PBNode{Data: []byte{0x08, 0x80}, HasData: true, Links: []model.PBLink{leaf("he"), leaf("llo")}}), false)
+			},
+			"inner-emptydata-2pb": func(s *store.Store) cid.Cid {
+				leaf := func(b string) model.PBLink {
+					c := put(s, model.EncodePB(&model.PBNode{Data: fsData(2, func(d *pb.Data) { d.Data = []byte(b); d.Filesize = u64p(uint64(len(b))) }), HasData: true}), false)
+					return model.PBLink{Cid: c, Tsize: 9, HasTsize: true}
+				}
+				return put(s, model.EncodePB(&model.PBNode{Data: []byte{}, HasData: true, Links: []model.PBLink{leaf("wo"), leaf("rld")}}), false)
 			},
 			"dir": func(s *store.Store) cid.Cid {
 				return put(s, model.EncodePB(&model.PBNode{Data: fsData(1, nil), HasData: true, Links: []model.PBLink{vlink(s, "e")}}), false)
